@@ -1,5 +1,5 @@
 (* Property C02 - equality compares in the selected value's own type; bad literals are errors. Numerals are digit lists (most significant first), dval their positional value, canonical = no leading zero; integers are Z throughout, never floats. Statements only (proofs: C02.v, C02b.v, C01.v). *)
-From Coq Require Import List String ZArith NArith Bool. From Bexpr Require Import Base Strconv Ast Univ Eval C01 C02 C02b RoundRat. Import ListNotations. Open Scope Z_scope.
+From Coq Require Import List String ZArith NArith Bool. From Bexpr Require Import Base Strconv Ast Univ Eval C01 C02 C02b RoundRat RoundGuards. Import ListNotations. Open Scope Z_scope.
 
 Theorem parse_int_dec_pos :
   forall ds : list Z, canonical ds -> dval ds 0 < 2 ^ 63 -> parse_int (dstr ds) 0 64 = POk (dval ds 0).
@@ -321,3 +321,22 @@ Theorem round_rat_instances :
   round_rat 1 (2 ^ 1075) 53 (-1074) 971 = Some (0, -1074) /\ round_rat (2 ^ 1024) 1 53 (-1074) 971 = None.
 Proof. exact (conj RoundRat.round_rat_tenth (conj RoundRat.round_rat_half_min_subnormal RoundRat.round_rat_overflow)). Qed.
 Print Assumptions round_rat_instances.
+
+(* The float parser model decides overflow and underflow of extreme literals from the size of the exponent, without computing the power.
+   These guards are not a second semantics: for binary64 and binary32 (is_format) and every non-zero mantissa they select exactly what
+   the single rounding of the exact rational gives (dec_round / hex_round are the calls parse_float_core makes). *)
+Theorem decimal_guards_are_the_rounding :
+  forall mant e10 p emin emaxe : Z,
+  is_format p emin emaxe -> 0 < mant ->
+  (if 310 <? e10 then None else if Z.log2 mant + 1 + 3 * e10 <? -1100 then Some (0, emin) else dec_round mant e10 p emin emaxe)
+  = dec_round mant e10 p emin emaxe.
+Proof. exact RoundGuards.decimal_guards_are_the_rounding. Qed.
+Print Assumptions decimal_guards_are_the_rounding.
+
+Theorem hex_guards_are_the_rounding :
+  forall mant e2 p emin emaxe : Z,
+  is_format p emin emaxe -> 0 < mant ->
+  (if 1100 <? e2 + Z.log2 mant then None else if e2 + Z.log2 mant <? -1200 then Some (0, emin) else hex_round mant e2 p emin emaxe)
+  = hex_round mant e2 p emin emaxe.
+Proof. exact RoundGuards.hex_guards_are_the_rounding. Qed.
+Print Assumptions hex_guards_are_the_rounding.
